@@ -274,6 +274,11 @@ def job(spec):
             r["exc"] = "%s: %s" % (type(exc).__name__, str(exc)[:300])
             return r
         r["files"] = sorted(os.listdir(outdir))
+        stm = set()
+        for f in r["files"]:
+            if f.endswith(".json"):
+                stm.update(re.findall(r'"stmt[0-9]*": "([^"]+)"', open(os.path.join(outdir, f), errors="replace").read()))
+        r["stmts"] = sorted(stm)
         r["results"] = compile_dir(outdir, spec.get("language"), incdirs)
         if spec.get("defines"):
             r["results"] += compile_dir(outdir, spec.get("language"), incdirs, defines=spec["defines"])
